@@ -1,7 +1,7 @@
 """C18 — state-vector sync (DESIGN §4 C18)."""
 import ast
 
-from .common import ctx, returns, calls_in_ctx, reach_from_succ, site, srcs_text, escape_check, self_attr, bound_args, explore, alias_text, call_arg
+from .common import ctx, returns, calls_in_ctx, reach_from_succ, site, srcs_text, escape_check, self_attr, bound_args, explore, explore_sym, alias_text, call_arg
 from ..flow import callee_attr
 from ..loader import AnalysisError, norm
 
@@ -305,15 +305,60 @@ def run(R):
     # ------------------------------------------------------------------ PRV.2 new_data / express_sync_interest
     R.ob('C18.PRV.2', 'new_data adds exactly 1, stores it under the own id and arms the timer; express_sync_interest encodes every local entry')
     nd = ctx(R, SV + '.new_data')
-    augs = [n for n in nd.cfg.nodes if n.kind == 'stmt' and isinstance(n.ast, ast.AugAssign) and ast.unparse(n.ast.target) == 'self.self_seq']
     inst = nd.qual + ' :: publish'
     probs = []
-    if len(augs) != 1 or not (isinstance(augs[0].ast.op, ast.Add) and isinstance(augs[0].ast.value, ast.Constant) and augs[0].ast.value.value == 1):
-        probs.append(('the own sequence number is not increased by exactly one', nd.f.node))
+    # linear execution of every path: locals and self.self_seq as (symbol -> coefficient) over the sequence number on entry, S
+    SEQ = 'self.self_seq'
+
+    def lval(e, env):
+        if isinstance(e, ast.Constant) and isinstance(e.value, int) and not isinstance(e.value, bool):
+            return ((1, e.value),) if e.value else ()
+        t = ast.unparse(e)
+        if isinstance(e, (ast.Name, ast.Attribute)):
+            return env[t] if t in env else ((t, 1),)
+        if isinstance(e, ast.BinOp) and isinstance(e.op, (ast.Add, ast.Sub)):
+            a, b = lval(e.left, env), lval(e.right, env)
+            if a is None or b is None:
+                return None
+            d = dict(a)
+            for k, v in b:
+                d[k] = d.get(k, 0) + (v if isinstance(e.op, ast.Add) else -v)
+            return tuple(sorted(((k, v) for k, v in d.items() if v), key=str))
+        return None
+
+    def transfer(n, st):
+        if n.kind != 'stmt' or not isinstance(n.ast, (ast.Assign, ast.AugAssign)):
+            return st
+        env = dict(st)
+        if isinstance(n.ast, ast.AugAssign):
+            tg, val = [n.ast.target], ast.BinOp(left=n.ast.target, op=n.ast.op, right=n.ast.value)
+        else:
+            tg, val = n.ast.targets, n.ast.value
+        v = lval(val, env)
+        for t in tg:
+            if isinstance(t, ast.Name) or ast.unparse(t) == SEQ:
+                env[ast.unparse(t)] = v if v is not None else (('?' + ast.unparse(val), 1),)
+            elif isinstance(t, ast.Tuple):
+                for x in t.elts:
+                    env[ast.unparse(x)] = (('?' + ast.unparse(x), 1),)
+        return tuple(sorted(env.items()))
+    WANT = tuple(sorted(((SEQ, 1), (1, 1)), key=str))
+    reached = explore_sym(nd, lambda e, st_: None, transfer)
+    by_node = {}
+    for (nid, st_) in reached:
+        by_node.setdefault(nid, []).append(dict(st_))
     st = [n for n in nd.cfg.nodes if n.kind == 'stmt' and isinstance(n.ast, ast.Assign)
           and any(isinstance(t, ast.Subscript) and self_attr(t.value, 'local_sv') and ast.unparse(t.slice) == 'self.self_node_id' for t in n.ast.targets)]
-    if len(st) != 1 or ast.unparse(st[0].ast.value) != 'self.self_seq' or (augs and not nd.cfg.dominates(augs[0], st[0])):
+    rets = returns(nd)
+    seq_stores = [n for n in nd.cfg.nodes if n.kind == 'stmt' and isinstance(n.ast, (ast.Assign, ast.AugAssign))
+                  and any(ast.unparse(t) == SEQ for t in (n.ast.targets if isinstance(n.ast, ast.Assign) else [n.ast.target]))]
+    R.paths_examined += len(reached)
+    if not seq_stores or not rets or any(lval(ast.parse(SEQ, mode='eval').body, env) != WANT for r in rets for env in by_node.get(r.id, [])):
+        probs.append(('the own sequence number is not increased by exactly one', nd.f.node))
+    if len(st) != 1 or any(lval(st[0].ast.value, env) != WANT for env in by_node.get(st[0].id, [])) \
+            or any(r.id in nd.cfg.reachable(removed_nodes=[st[0]]) for r in rets):
         probs.append(('the new sequence number is not stored under the own node id in local_sv', nd.f.node))
+    augs = seq_stores
     timing = [n for n in nd.cfg.nodes if n.kind == 'stmt' and isinstance(n.ast, ast.Assign) and any(self_attr(t, 'next_sync_timing') for t in n.ast.targets)]
     sets = calls_in_ctx(nd, attr='set')
     if not timing or not (isinstance(timing[0].ast.value, ast.Constant) and timing[0].ast.value.value == 0) or not sets:
@@ -321,8 +366,7 @@ def run(R):
     steady = [n for n in nd.cfg.nodes if n.kind == 'stmt' and isinstance(n.ast, ast.Assign) and any(self_attr(t, 'state') for t in n.ast.targets)]
     if not steady or 'SyncSteady' not in ast.unparse(steady[0].ast.value):
         probs.append(('publishing does not leave the suppression state (the announcement could be suppressed)', nd.f.node))
-    rets = returns(nd)
-    if not rets or any(ast.unparse(r.ast.value) != 'self.self_seq' for r in rets):
+    if not rets or any(r.ast.value is None or lval(r.ast.value, env) != WANT for r in rets for env in by_node.get(r.id, [])):
         probs.append(('new_data does not return the new sequence number', nd.f.node))
     if probs:
         for (what, construct) in probs:
